@@ -46,7 +46,7 @@ def compose(perms):
 
 
 def apply_perms(expr, perms):
-    return expr.subs(compose(perms), simultaneous=True)
+    return expr.xreplace(compose(perms))
 
 
 def _targets(rng, spaces, nmax, spin=False):
@@ -164,7 +164,7 @@ def run_exploit(sd):
             gens.append((tuple(rng.sample(lst, 2)), rng.choice([1, -1])))
     terms = [t0]
     for (p, q), f in gens:
-        terms = terms + [f * x.subs({p: q, q: p}, simultaneous=True) for x in terms]
+        terms = terms + [f * x.xreplace({p: q, q: p}) for x in terms]
     if rng.random() < 0.4:
         try:
             terms.append(g.term_with_target(T))
